@@ -6,6 +6,7 @@
 #include <setjmp.h>
 #include "src/config.c"
 #define SET_MODEL_CLEANUP_FN conf_object_cleanup
+#define SET_MODEL_EXTRA_CMP conf_object_cmp
 #include "spec/set_model.h"
 
 struct log_type *log_core;
@@ -266,26 +267,52 @@ void h_parse_whitespace(void)
 struct { char h[2], s[2]; int have_old; } in_inaddr;
 void h_replace_inaddr(void)
 {
-    struct set_node *tn, *sn;
-    struct conf_node_inaddr *t, *s;
-    struct conf_node_object scratch;
+    static struct { struct set_node n; struct conf_node_inaddr v; } tobj, sobj;
+    struct conf_node_inaddr *t = &tobj.v, *s = &sobj.v;
     V_IN(in_inaddr);
     in_inaddr.h[1] = 0; in_inaddr.s[1] = 0;
-    memset(&scratch, 0, sizeof(scratch));
-    scratch.base.name = ""; scratch.base.type = CONF_OBJECT;
-    scratch.contents.compare = conf_object_cmp; scratch.contents.cleanup = conf_object_cleanup;
-    tn = xmalloc(sizeof(*tn) + sizeof(*t)); t = set_node_data(tn);
-    sn = xmalloc(sizeof(*sn) + sizeof(*s)); s = set_node_data(sn);
     t->base.name = xstrdup("a"); t->base.type = CONF_INADDR; t->base.specified = 1; t->base.hook = the_hook;
     t->def_hostname = "dh"; t->def_service = "ds";
     if (in_inaddr.have_old) { t->hostname = xstrdup("oh"); t->service = xstrdup("os"); }
-    s->base.name = xstrdup("a"); s->base.type = CONF_INADDR; s->base.parent = &scratch;
+    s->base.name = xstrdup("a"); s->base.type = CONF_INADDR;
     s->hostname = xstrdup(in_inaddr.h); s->service = xstrdup(in_inaddr.s);
-    model_set_insert(&scratch.contents, sn);
     conf_replace_value(&t->base, &s->base);                          /* REAL */
-    /* what conf_read does next: the scratch tree is cleared with disposal */
-    model_set_clear(&scratch.contents, 0);
+    /* what conf_read does next: the scratch tree is released, i.e. the scratch node is cleaned up */
+    conf_object_cleanup(&s->base);                                   /* REAL */
     V_ASSERT(t->hostname != NULL && t->hostname[0] == in_inaddr.h[0] && t->service[0] == in_inaddr.s[0],
-             "C15: a host/service pair equals the value given in the file - and stays valid after the scratch tree is released");
+             "C15/C14: a host/service pair equals the value given in the file - and stays valid after the scratch tree is released (no use after free)");
+    V_CANARY();
+}
+
+/* ====================== C17/C15: merging two object nodes: does an in-place edit notify? ====
+ * live section { k = "a" } with a hook on the SECTION (children created by a file carry no
+ * hook of their own - exactly the situation of the iauth_xquery and iauth_class sections),
+ * new file: section { k = <v> }.  C17 needs the section's hook to run when the effective
+ * value of a descendant changed in place. */
+struct { char v[2]; } in_newval;
+void h_replace_object_inplace(void)
+{
+    static struct conf_node_object live, scratch;
+    struct set_node *tn, *sn;
+    struct conf_node_string *t, *s;
+    V_IN(in_newval);
+    in_newval.v[1] = 0;
+    V_ASSUME(in_newval.v[0] != 0);
+    memset(&live, 0, sizeof(live)); memset(&scratch, 0, sizeof(scratch));
+    live.base.name = "sec"; live.base.type = CONF_OBJECT; live.base.specified = 1; live.base.present = 1; live.base.hook = the_hook;
+    live.contents.compare = conf_object_cmp; live.contents.cleanup = conf_object_cleanup;
+    scratch.base.name = "sec"; scratch.base.type = CONF_OBJECT;
+    scratch.contents.compare = conf_object_cmp; scratch.contents.cleanup = conf_object_cleanup;
+    /* file-scope objects: their fields stay concrete for the symbolic executor (heap objects' do not) */
+    static struct { struct set_node n; struct conf_node_string v; } tobj, sobj;
+    tn = &tobj.n; t = set_node_data(tn);
+    sn = &sobj.n; s = set_node_data(sn);
+    t->base.name = xstrdup("k"); t->base.type = CONF_STRING; t->base.parent = &live; t->base.present = 1; t->value = xstrdup("a"); t->parsed.p_string = t->value;
+    s->base.name = xstrdup("k"); s->base.type = CONF_STRING; s->base.parent = &scratch; s->value = xstrdup(in_newval.v);
+    model_set_insert(&live.contents, tn);
+    model_set_insert(&scratch.contents, sn);
+    conf_replace_value(&live.base, &scratch.base);                   /* REAL */
+    V_ASSERT(t->value != NULL && t->value[0] == in_newval.v[0], "C15: the setting equals the value given in the new file");
+    V_ASSERT((hook_calls >= 1) == (in_newval.v[0] != 'a'), "C17: the section's hook runs when a descendant's effective value changed in place (and only then)");
     V_CANARY();
 }
